@@ -152,6 +152,7 @@ type c11Input struct {
 	Ctxs   map[string]json.RawMessage `json:"ctxs"`
 	Runs   []c11Run                   `json:"runs"`
 	Random int                        `json:"random"`
+	Apply  int                        `json:"apply"` // 1: run the ApplyBlock crash-point family
 	Conc   int                        `json:"conc"`
 }
 
@@ -577,6 +578,13 @@ func (w *c11World) nameOf(addr []byte) string {
 }
 
 func newC11World(t *testing.T, ctx *c11Ctx) *c11World {
+	w := newC11Base(t, ctx)
+	w.fill()
+	return w
+}
+
+// keys (named in address order) and validator sets
+func newC11Base(t *testing.T, ctx *c11Ctx) *c11World {
 	w := &c11World{t: t, ctx: ctx, pvs: map[string]types.MockPV{}, addr: map[string][]byte{},
 		items: map[string]types.Evidence{}, byBytes: map[string]string{}, keyName: map[string]string{},
 		pairs: map[string][2]*types.Vote{}, pairKey: map[string]string{}, tickets: map[string]*c11Ticket{}}
@@ -602,6 +610,13 @@ func newC11World(t *testing.T, ctx *c11Ctx) *c11World {
 		w.vals[h] = w.mkValSet(w.valsAt(h))
 	}
 	w.vals[0] = types.NewValidatorSet(nil)
+	return w
+}
+
+// the synthetic chain behind the stub block store, the state store and the pool
+func (w *c11World) fill() {
+	t, ctx := w.t, w.ctx
+	N := int64(ctx.N)
 	w.headers = make([]*types.Header, N+1)
 	w.commits = make([]*types.Commit, N+1)
 	w.bs = &c11BlockStore{metas: map[int64]*types.BlockMeta{}, commits: map[int64]*types.Commit{}, parked: map[int64]*c11Gate{}}
@@ -658,7 +673,6 @@ func newC11World(t *testing.T, ctx *c11Ctx) *c11World {
 		t.Fatal(err)
 	}
 	w.pool = p
-	return w
 }
 
 // ---------------------------------------------------------------- evidence universe
@@ -1446,6 +1460,9 @@ func TestVerifC11(t *testing.T) {
 	for k := 0; k < in.Random; k++ {
 		run++
 		c11RunRandom(t, out, run, rng, false)
+	}
+	if in.Apply > 0 {
+		run = c11RunApplyFamily(t, out, run)
 	}
 	for k := 0; k < in.Conc; k++ {
 		run++
